@@ -15,6 +15,7 @@ From Cedar Require Export Batched.
 From Cedar Require Export TypecheckRun.
 From Cedar Require Export SchemaSynRun.
 From Cedar Require Export ExtParse.
+From Cedar Require Export Level.
 
 Definition dispatchers : list (string -> list sexp -> option sexp) :=
   [ run_core
@@ -30,6 +31,7 @@ Definition dispatchers : list (string -> list sexp -> option sexp) :=
   ; run_typecheck
   ; run_schema_syn
   ; run_ext
+  ; run_level
   ].
 
 Fixpoint dispatch (ds : list (string -> list sexp -> option sexp)) (cmd : string) (args : list sexp) : sexp :=
